@@ -24,120 +24,9 @@ func init() {
 func runC10(c *engine.Ctx) {
 	p := c.P
 	tab := buildResTable(c)
-	proxyIface := p.Named("server/proxy", "Proxy")
-	base := p.Named("server/proxy", "BaseProxy")
-	if proxyIface == nil || base == nil {
-		c.Missing("server/proxy.Proxy", "proxy interface not found")
-		return
-	}
-	it := proxyIface.Underlying().(*types.Interface)
-	pk := p.Pkg("server/proxy")
-	var ptypes []*types.Named
-	for _, name := range pk.Types.Scope().Names() {
-		tn, ok := pk.Types.Scope().Lookup(name).(*types.TypeName)
-		if !ok {
-			continue
-		}
-		n, ok := tn.Type().(*types.Named)
-		if !ok || types.IsInterface(n) || n == base {
-			continue
-		}
-		if types.Implements(types.NewPointer(n), it) {
-			ptypes = append(ptypes, n)
-		}
-	}
-	listenersF := field(c, "server/proxy", "BaseProxy", "listeners")
 
 	// ---- R1 Close covers Run ----
-	c.Rule("R1", "for every server proxy type, each resource kind acquired in Run (through its own methods and closures) is released in Close: by the kind's release API (directly or via closures queued in closeFuncs) or by closing the value stored in the listeners / connection field")
-	for _, n := range ptypes {
-		tname := "server/proxy." + n.Obj().Name()
-		own := methodsOf(p, n)
-		for k, v := range methodsOf(p, base) {
-			own[k] = v
-		}
-		run := p.FuncOf(p.MethodObj("server/proxy", n.Obj().Name(), "Run"))
-		cls := p.FuncOf(p.MethodObj("server/proxy", n.Obj().Name(), "Close"))
-		if run == nil || cls == nil {
-			c.Undecide(tname, n.Obj().Pos(), "Run or Close not found")
-			continue
-		}
-		runFns := ownClosure(p, run, own)
-		closeFns := ownClosure(p, cls, own)
-		// closures queued into a []func() field that Close invokes
-		queued := queuedClosures(p, n, own, closeFns)
-		closeFns = append(closeFns, queued...)
-		// fields whose content Close closes (x.f.Close() or for range x.f { .Close() })
-		closedFields := map[*types.Var]bool{}
-		releasedKinds := map[*resKind]bool{}
-		for _, f := range closeFns {
-			engine.ForEachInstr(f, func(in ssa.Instruction) {
-				call, ok := in.(ssa.CallInstruction)
-				if !ok {
-					return
-				}
-				if o := engine.CalleeObj(call); o != nil {
-					for _, k := range tab.releaseKinds(o) {
-						releasedKinds[k] = true
-					}
-				}
-				if isCloserClose(call) {
-					src := engine.Provenance(engine.CallArgs(call)[0], engine.ProvOpts{NoArgs: true})
-					for fv := range src.Fields {
-						closedFields[fv] = true
-					}
-				}
-			})
-		}
-		acquired := map[*resKind][]ssa.CallInstruction{}
-		for _, f := range runFns {
-			engine.ForEachInstr(f, func(in ssa.Instruction) {
-				call, ok := in.(ssa.CallInstruction)
-				if !ok {
-					return
-				}
-				if k := tab.acquireKind(engine.CalleeObj(call)); k != nil {
-					acquired[k] = append(acquired[k], call)
-				}
-			})
-		}
-		var kinds []*resKind
-		for k := range acquired {
-			kinds = append(kinds, k)
-		}
-		sort.Slice(kinds, func(i, j int) bool { return kinds[i].name < kinds[j].name })
-		if len(kinds) == 0 {
-			c.Undecide(tname, run.Pos(), "Run acquires no known resource kind: the resource table no longer matches this proxy type")
-			continue
-		}
-		for _, k := range kinds {
-			key := tname + ">" + k.name
-			okRel := releasedKinds[k]
-			how := "release API called from Close"
-			if !okRel && k.listener {
-				// every acquire site must park its result in a field that Close closes
-				all := true
-				for _, call := range acquired[k] {
-					if !resultParkedInClosedField(call, closedFields) {
-						all = false
-					}
-				}
-				okRel = all
-				how = "result stored in a field whose content Close closes"
-			}
-			var cf []string
-			for fv := range closedFields {
-				cf = append(cf, fv.Name())
-			}
-			sort.Strings(cf)
-			c.Check(okRel, key, acquired[k][0].Pos(), len(runFns)+len(closeFns),
-				[]string{fmt.Sprintf("acquired at %d site(s) in Run's own code (%d functions)", len(acquired[k]), len(runFns)),
-					"kinds released by Close's own code: " + strings.Join(kindNames(releasedKinds), ","), "fields closed by Close: " + strings.Join(cf, ",")},
-				"%s acquired in Run is released by Close (%s)", k.name, how)
-		}
-	}
-	c.Floor(len(ptypes), 8)
-	_ = listenersF
+	checkCloseCoversRun(c, "R1")
 
 	// ---- R2 rollback on partial failure ----
 	checkRunRollbacks(c, "R2")
@@ -1187,4 +1076,128 @@ func checkOrderedHandlers(c *engine.Ctx, rule string) {
 		}
 	}
 	c.Floor(n, 2)
+}
+
+// checkCloseCoversRun (C10.R1, shared as C12.R11): for every server proxy type, each resource kind acquired in Run is
+// released in Close. A type without its own Close uses the promoted BaseProxy.Close — which releases only what the
+// base knows about.
+func checkCloseCoversRun(c *engine.Ctx, rule string) {
+	p := c.P
+	tab := buildResTable(c)
+	proxyIface := p.Named("server/proxy", "Proxy")
+	base := p.Named("server/proxy", "BaseProxy")
+	if proxyIface == nil || base == nil {
+		c.Missing("server/proxy.Proxy", "proxy interface not found")
+		return
+	}
+	it := proxyIface.Underlying().(*types.Interface)
+	pk := p.Pkg("server/proxy")
+	var ptypes []*types.Named
+	for _, name := range pk.Types.Scope().Names() {
+		tn, ok := pk.Types.Scope().Lookup(name).(*types.TypeName)
+		if !ok {
+			continue
+		}
+		n, ok := tn.Type().(*types.Named)
+		if !ok || types.IsInterface(n) || n == base {
+			continue
+		}
+		if types.Implements(types.NewPointer(n), it) {
+			ptypes = append(ptypes, n)
+		}
+	}
+	listenersF := field(c, "server/proxy", "BaseProxy", "listeners")
+	c.Rule(rule, "for every server proxy type, each resource kind acquired in Run (through its own methods and closures) is released in Close: by the kind's release API (directly or via closures queued in closeFuncs) or by closing the value stored in the listeners / connection field")
+	for _, n := range ptypes {
+		tname := "server/proxy." + n.Obj().Name()
+		own := methodsOf(p, n)
+		for k, v := range methodsOf(p, base) {
+			own[k] = v
+		}
+		run := p.FuncOf(p.MethodObj("server/proxy", n.Obj().Name(), "Run"))
+		cls := p.FuncOf(p.MethodObj("server/proxy", n.Obj().Name(), "Close"))
+		if cls == nil {
+			cls = p.FuncOf(p.MethodObj("server/proxy", "BaseProxy", "Close")) // promoted through the embedded base
+		}
+		if run == nil || cls == nil {
+			c.Undecide(tname, n.Obj().Pos(), "Run or Close not found")
+			continue
+		}
+		runFns := ownClosure(p, run, own)
+		closeFns := ownClosure(p, cls, own)
+		// closures queued into a []func() field that Close invokes
+		queued := queuedClosures(p, n, own, closeFns)
+		closeFns = append(closeFns, queued...)
+		// fields whose content Close closes (x.f.Close() or for range x.f { .Close() })
+		closedFields := map[*types.Var]bool{}
+		releasedKinds := map[*resKind]bool{}
+		for _, f := range closeFns {
+			engine.ForEachInstr(f, func(in ssa.Instruction) {
+				call, ok := in.(ssa.CallInstruction)
+				if !ok {
+					return
+				}
+				if o := engine.CalleeObj(call); o != nil {
+					for _, k := range tab.releaseKinds(o) {
+						releasedKinds[k] = true
+					}
+				}
+				if isCloserClose(call) {
+					src := engine.Provenance(engine.CallArgs(call)[0], engine.ProvOpts{NoArgs: true})
+					for fv := range src.Fields {
+						closedFields[fv] = true
+					}
+				}
+			})
+		}
+		acquired := map[*resKind][]ssa.CallInstruction{}
+		for _, f := range runFns {
+			engine.ForEachInstr(f, func(in ssa.Instruction) {
+				call, ok := in.(ssa.CallInstruction)
+				if !ok {
+					return
+				}
+				if k := tab.acquireKind(engine.CalleeObj(call)); k != nil {
+					acquired[k] = append(acquired[k], call)
+				}
+			})
+		}
+		var kinds []*resKind
+		for k := range acquired {
+			kinds = append(kinds, k)
+		}
+		sort.Slice(kinds, func(i, j int) bool { return kinds[i].name < kinds[j].name })
+		if len(kinds) == 0 {
+			c.Undecide(tname, run.Pos(), "Run acquires no known resource kind: the resource table no longer matches this proxy type")
+			continue
+		}
+		for _, k := range kinds {
+			key := tname + ">" + k.name
+			okRel := releasedKinds[k]
+			how := "release API called from Close"
+			if !okRel && k.listener {
+				// every acquire site must park its result in a field that Close closes
+				all := true
+				for _, call := range acquired[k] {
+					if !resultParkedInClosedField(call, closedFields) {
+						all = false
+					}
+				}
+				okRel = all
+				how = "result stored in a field whose content Close closes"
+			}
+			var cf []string
+			for fv := range closedFields {
+				cf = append(cf, fv.Name())
+			}
+			sort.Strings(cf)
+			c.Check(okRel, key, acquired[k][0].Pos(), len(runFns)+len(closeFns),
+				[]string{fmt.Sprintf("acquired at %d site(s) in Run's own code (%d functions)", len(acquired[k]), len(runFns)),
+					"kinds released by Close's own code: " + strings.Join(kindNames(releasedKinds), ","), "fields closed by Close: " + strings.Join(cf, ",")},
+				"%s acquired in Run is released by Close (%s)", k.name, how)
+		}
+	}
+	c.Floor(len(ptypes), 8)
+	_ = listenersF
+
 }
